@@ -428,12 +428,21 @@ func addrPath(a ssa.Value) *Path {
 	switch x := a.(type) {
 	case *ssa.FieldAddr:
 		if f := structField(x.X.Type(), x.Field); f != nil {
+			switch x.X.(type) {
+			case *ssa.FieldAddr, *ssa.IndexAddr:
+				// address of a nested struct: continue along the address chain
+				return addrPath(x.X).with(sel{Field: f})
+			}
 			return valuePath(x.X).with(sel{Field: f})
 		}
 	case *ssa.IndexAddr:
 		if k, ok := constInt(x.Index); ok {
 			base := x.X
 			// &arr[k] where arr is *[N]T, or slice[k]
+			switch base.(type) {
+			case *ssa.FieldAddr, *ssa.IndexAddr:
+				return addrPath(base).with(sel{IsIdx: true, Index: k})
+			}
 			return valuePath(base).with(sel{IsIdx: true, Index: k})
 		}
 	case *ssa.ChangeType:
